@@ -76,7 +76,10 @@ type gen struct{ r *rand.Rand }
 func (g *gen) pick(s []string) string { return s[g.r.IntN(len(s))] }
 
 func (g *gen) leaf() item {
-	if g.r.IntN(30) == 0 {
+	if g.r.IntN(20) == 0 {
+		if g.r.IntN(2) == 0 {
+			return item{K: "text", Text: bigTexts[0]} // the one beyond 64 KiB
+		}
 		return item{K: "text", Text: bigTexts[g.r.IntN(len(bigTexts))]}
 	}
 	switch g.r.IntN(10) {
